@@ -768,6 +768,52 @@ def run(report, index, tier):
     # R12.1 ---------------------------------------------------------------
     r1 = report.rule('R12.1', 'every raise site raises the library syntax '
                      'error (or the documented wrappers)', floor=8)
+    pparse = need_function(pm, 'parse', 'Parser')
+    called_from_parse = {
+        c.func.id for c in ast.walk(pparse) if isinstance(c, ast.Call) and
+        isinstance(c.func, ast.Name) and c.args and isinstance(
+            c.args[0], ast.Name) and c.args[0].id in [
+                a.arg for a in pparse.args.args]} | {
+        c.func.attr for c in ast.walk(pparse) if isinstance(c, ast.Call) and
+        isinstance(c.func, ast.Attribute) and isinstance(
+            c.func.value, ast.Name) and c.func.value.id == 'self' and
+        c.args and isinstance(c.args[0], ast.Name) and c.args[0].id in [
+            a.arg for a in pparse.args.args]}
+
+    def is_str_test(test, params):
+        return isinstance(test, ast.Call) and isinstance(
+            test.func, ast.Name) and test.func.id == 'isinstance' and \
+            len(test.args) == 2 and isinstance(
+                test.args[0], ast.Name) and test.args[0].id in params and \
+            ast.unparse(test.args[1]) in ('str', '(str,)')
+
+    def non_str_guarded(f, raise_node):
+        params = [a.arg for a in f.args.args]
+        # (i) inside `if not isinstance(p, str):`
+        for n_ in ast.walk(f):
+            if isinstance(n_, ast.If) and isinstance(
+                    n_.test, ast.UnaryOp) and isinstance(
+                    n_.test.op, ast.Not) and is_str_test(
+                        n_.test.operand, params) and any(
+                    x is raise_node for st in n_.body for x in ast.walk(st)):
+                return True
+        # (ii) a top-level statement after `if isinstance(p, str): return`
+        for i, st in enumerate(f.body):
+            if any(x is raise_node for x in ast.walk(st)) and any(
+                    isinstance(b, ast.If) and is_str_test(b.test, params) and
+                    b.body and isinstance(b.body[-1], ast.Return) and
+                    not b.orelse for b in f.body[:i]):
+                return True
+        return False
+
+    def unwraps_production_error(f, raise_node):
+        for n_ in ast.walk(f):
+            if isinstance(n_, ast.ExceptHandler) and n_.type is not None \
+                    and ast.unparse(n_.type) == 'ProductionError' and \
+                    n_.name and any(x is raise_node for st in n_.body
+                                    for x in ast.walk(st)):
+                return ast.unparse(raise_node.exc) == '%s.args[0]' % n_.name
+        return False
     for m in (lm, pm):
         for cls, f, chain in iter_functions(m):
             for n in own_nodes(f):
@@ -791,15 +837,20 @@ def run(report, index, tier):
                             exc.args[0], ast.Call) and ast.unparse(
                             exc.args[0].func) in ALLOWED_EXC)
                         why = 'wrapped syntax error'
-                    elif name == 'TypeError' and f.name == 'parse':
-                        # documented: non-string argument
-                        ok = 'isinstance(text, str)' in ast.unparse(f)
+                    elif name == 'TypeError':
+                        # documented: non-string argument.  The raise is
+                        # reached only when a parameter is not a str, in
+                        # Parser.parse or a helper it calls with its text
+                        ok = non_str_guarded(f, n) and (
+                            f.name == 'parse' or f.name in
+                            called_from_parse)
+                        why = 'documented TypeError for a non-string text'
                     elif name.startswith('type(') and m is not lm:
                         ok = False
                 elif isinstance(exc, ast.Name) and exc.id == 'StopIteration' \
                         and f.name in ('next', '__next__'):
                     ok, why = True, 'iterator protocol (not on the parse path)'
-                elif ast.unparse(exc) == 'e.args[0]' and f.name == 'parse':
+                elif f.name == 'parse' and unwraps_production_error(f, n):
                     ok, why = True, 'unwrapping ProductionError'
                 r1.check(ok, key, construct,
                          'raises %s: an exception type other than the '
@@ -1176,6 +1227,14 @@ def run(report, index, tier):
                                 where=where)
                     continue
                 inv = invariant_discharges(t, invariants.get(cls, {}))
+                # triage keys are independent of how a handler names the
+                # caught ProductionError
+                for h in ast.walk(f):
+                    if isinstance(h, ast.ExceptHandler) and h.name and \
+                            h.type is not None and ast.unparse(
+                                h.type) == 'ProductionError' and \
+                            t == '%s.args[0]' % h.name:
+                        t = 'e.args[0]'
                 if f.name in TABLE_COVERED:
                     r3.ok(construct, 'decided by the table of R12.6')
                 elif inv is not None:
